@@ -21,7 +21,7 @@ Definition val_op (v : val) : option op :=
 
 (* encoder and decoder set up as an HTTP/2 endpoint pair: protocol default 4096, limit L on both sides *)
 Definition init_enc (L : Z) : option enc := enc_set_limit new_encoder L.
-Definition init_dec (L : Z) : dec := mkD (mkDT [] 0 4096 L) [].
+Definition init_dec (L : Z) : dec := mkD (mkDT [] 0 4096 L) [] true.
 
 Definition block_record (blk : bytes) (fs : list field) (st : Z) (e : enc) (d : dec) : val :=
   VL [VB blk; fields_val fs; VZ st; VZ (dsize (edt e)); VZ (dmax (edt e)); VZ (dsize (ddt d)); VZ (dmax (ddt d))].
@@ -53,11 +53,11 @@ Definition decode_input (i : val) : option (Z * list op) :=
   | _ => None
   end.
 
-Definition run_C30 (i : val) : val :=
+Definition run_C30_hd (hd : bytes -> hres) (i : val) : val :=
   match decode_input i with
   | Some (L, ops) =>
     match init_enc L with
-    | Some e => match run_ops huff_decode ops e (init_dec L) [] [] with
+    | Some e => match run_ops hd ops e (init_dec L) [] [] with
                 | Some out => VL out
                 | None => VL [VZ (-2)]
                 end
@@ -65,7 +65,10 @@ Definition run_C30 (i : val) : val :=
     end
   | None => VErr 0
   end.
-Definition agree_C30 (i o : val) : bool := val_eqb (run_C30 i) o.
+(* the model: Huffman strings are decoded by the RFC bit-level decoder (functional model of huffmanDecode) *)
+Definition run_C30 (i : val) : val := run_C30_hd huff_decode_spec i.
+(* the implementation must agree with the model, and so must the transcription of the byte-trie decoder *)
+Definition agree_C30 (i o : val) : bool := val_eqb (run_C30 i) o && val_eqb (run_C30_hd huff_decode i) o.
 
 (* THE PROPERTY on the implementation's observation: every block decodes, without error, to exactly the
    fields written into it (name, value, never-index flag), and both tables stay within their maximum and
@@ -99,3 +102,21 @@ Definition prop_C30 (i o : val) : bool :=
   | _, _ => false
   end.
 Definition kf_C30 (i : val) : Z := 0.
+
+(* executable well-formedness of inputs: limit in uint32, bytes in range, strings below 2^61 bytes (always true for
+   wire inputs), SetMaxDynamicTableSize values non-negative and only before the first field of a block
+   (the HTTP/2 layer applies SETTINGS between header blocks; RFC 7541 4.2) *)
+Definition wf_field_b (f : field) : bool :=
+  wf_bytes (fname f) && wf_bytes (fvalue f) && (blen (fname f) <? 2 ^ 61) && (blen (fvalue f) <? 2 ^ 61).
+Fixpoint wf_ops_b (ops : list op) (started : bool) : bool :=
+  match ops with
+  | [] => true
+  | OWrite f :: r => wf_field_b f && wf_ops_b r true
+  | OSetMax v :: r => (0 <=? v) && negb started && wf_ops_b r started
+  | OEnd :: r => wf_ops_b r false
+  end.
+Definition wf_C30 (i : val) : bool :=
+  match decode_input i with
+  | Some (L, ops) => (0 <=? L) && (L <=? uint32_max) && wf_ops_b ops false
+  | None => false
+  end.
